@@ -71,52 +71,4 @@ pub(crate) mod verif_string {
         }
     }
 
-    const WINDOW: [i64; 11] = [i64::MIN, -4, -3, -2, -1, 0, 1, 2, 3, 4, i64::MAX];
-
-    fn sweep(text: &str, chars: &[char]) {
-        // every (start, len) pair of the window, executed concretely one after the other
-        let mut a = 0;
-        while a < 11 {
-            let mut b = 0;
-            while b < 12 {
-                let len = if b == 11 { None } else { Some(WINDOW[b]) };
-                check_one(text, chars, WINDOW[a], len);
-                b += 1;
-            }
-            a += 1;
-        }
-        kani::cover!(true, "swept");
-    }
-
-    //@ob name=C16.substr.single props=C16 tier=quick strength=bounded bound="one call" fns=op::string::substr stubs=1 timeout=150
-    //@ desc="timing probe: one concrete call"
-    #[cfg_attr(kani, kani::proof)]
-    #[cfg_attr(kani, kani::stub(std::fmt::format, crate::verif_support::fmt_stub))]
-    pub(crate) fn k_c16_substr_single() {
-        check_one("a\u{e4}\u{20ac}", &['a', '\u{e4}', '\u{20ac}'], -1, Some(2));
-        kani::cover!(true, "done");
-    }
-
-    macro_rules! substr_shape {
-        ($name:ident, $text:expr, $chars:expr) => {
-            #[cfg_attr(kani, kani::proof)]
-            #[cfg_attr(kani, kani::unwind(14))]
-            #[cfg_attr(kani, kani::stub(std::fmt::format, crate::verif_support::fmt_stub))]
-            pub(crate) fn $name() {
-                sweep($text, &$chars);
-            }
-        };
-    }
-    //@ob name=C16.substr.shape.ascii3 harness=k_c16_substr_ascii3 props=C16,C01 strength=bounded bound="string \"abc\"; start and length each in {i64::MIN,-4..4,i64::MAX} and length absent" fns=op::string::substr stubs=1 replay=generic timeout=600
-    //@ desc="substr(s,i[,n]) == the character slice (skip i / from the end, take n / stop n before the end, clamped), and no panic, on this shape"
-    substr_shape!(k_c16_substr_ascii3, "abc", ['a', 'b', 'c']);
-    //@ob name=C16.substr.shape.mixed3 harness=k_c16_substr_mixed3 props=C16,C01 strength=bounded bound="string \"aä€\" (1-,2-,3-byte chars); start and length each in {i64::MIN,-4..4,i64::MAX} and length absent" fns=op::string::substr stubs=1 replay=generic timeout=600
-    //@ desc="substr counts Unicode characters, never bytes, on a string whose byte and character offsets differ"
-    substr_shape!(k_c16_substr_mixed3, "a\u{e4}\u{20ac}", ['a', '\u{e4}', '\u{20ac}']);
-    //@ob name=C16.substr.shape.astral2 harness=k_c16_substr_astral2 props=C16,C01 strength=bounded bound="string \"😀b\" (4-byte char); start and length each in {i64::MIN,-4..4,i64::MAX} and length absent" fns=op::string::substr stubs=1 replay=generic timeout=600
-    //@ desc="substr counts Unicode characters on a string with a 4-byte character"
-    substr_shape!(k_c16_substr_astral2, "\u{1F600}b", ['\u{1F600}', 'b']);
-    //@ob name=C16.substr.shape.empty harness=k_c16_substr_empty props=C16,C01 strength=bounded bound="empty string; start and length each in {i64::MIN,-4..4,i64::MAX} and length absent" fns=op::string::substr stubs=1 replay=generic timeout=600
-    //@ desc="substr of the empty string is empty for every start/length"
-    substr_shape!(k_c16_substr_empty, "", [' '; 0]);
 }
